@@ -60,6 +60,7 @@ fixed("FX-C07-04", "C07", "987fef6", "unescapeString formed unsafeAdd(src, 11) b
 fixed("FX-C05-03", "C05", "a71d371", "UnmarshalWithOption({\"a\":1 x}, &struct{A int}{}, DecodeFieldPriorityFirstWin()) = nil, also {\"a\":1,,,}, {\"a\":1]}, {\"a\":1 \"b\" 2}: first-win mode left through the bracket-matching skipObject once every field had been seen (noticed through seeded change C05b)")
 fixed("FX-C06-07", "C06", "e35cc2f", "Decoder.Decode of \"\\xff\\u0041\" (ill-formed UTF-8 followed by a \\u escape) fed in pieces into a string destination panicked (slice bounds out of range in decodeUnicode): the stream length was over-counted by one per replaced byte")
 fixed("FX-C09-08", "C09", "e35cc2f", "a >500-byte document with ill-formed UTF-8 in strings, cut at 510, made Decoder fail with io.ErrNoProgress (zero-length Read: no room left in a buffer that was not flagged full); Unmarshal decodes it")
+fixed("FX-C05-04", "C05", "13c8293", "a Decoder fed 3 bytes at a time accepted {\"A\":\"\",\" \\\"  :  2933322023 } (unterminated key): refill right behind a backslash in an unknown struct key resumed on the escaped byte (found by the chunked stream entries added to C05 for seeded change C05c)")
 fixed("FX-C15-01", "C15", "57be1d1", "Decoder fed 5-byte chunks failed on fully \\u-escaped keys")
 
 fixed("FX-C06-04", "C06", "0243e9f", "Compact/Indent of a 100000-deep tower: fatal out of memory / stack overflow (no nesting limit)")
@@ -77,9 +78,9 @@ fixed("FX-C05-01", "C05", "17431c1", "\\u in a struct key accepted any four byte
 fixed("FX-C02-03", "C02", "17431c1", "Decoder.Decode({\"\\ud83dx\":5,\"A\":1}) into a struct failed with 'expected colon after object key' (lone high surrogate in a key moved the cursor too far); two high halves in a row became one U+FFFD")
 
 # ------------------------------------------------------------------ C05
-ALL15 = r"(Valid|Unmarshal(NoEscape|Context|WithOption\(FirstWin\))?:.+|Decode(Context|WithOption\(FirstWin\))?:.+)"
-STREAM = r"(Valid|Decode(Context|WithOption\(FirstWin\))?:.+)"
-SKIPPERS = r"(Valid|Decode(Context|WithOption\(FirstWin\))?:.+|Unmarshal(Context|WithOption\(FirstWin\)):struct\{A\}|Unmarshal:(struct\{\}|struct\{A\}(\(after-options\))?|\[0\]int|\[1\]iface|RawMessage|Unmarshaler|\[\]RawMessage|map\[string\]Unmarshaler))"
+ALL15 = r"(Valid|Unmarshal(NoEscape|Context|WithOption\(FirstWin\))?:.+|Decode(Context|WithOption\(FirstWin\)|\(\d-byte reads\))?:.+)"
+STREAM = r"(Valid|Decode(Context|WithOption\(FirstWin\)|\(\d-byte reads\))?:.+)"
+SKIPPERS = r"(Valid|Decode(Context|WithOption\(FirstWin\)|\(\d-byte reads\))?:.+|Unmarshal(Context|WithOption\(FirstWin\)):struct\{A\}|Unmarshal:(struct\{\}|struct\{A\}(\(after-options\))?|\[0\]int|\[1\]iface|RawMessage|Unmarshaler|\[\]RawMessage|map\[string\]Unmarshaler))"
 M = "accept-language"
 known("KF-C05-01", "C05", M, ALL15, "ok-vs-err", r"relax=num:parsefloat-grammar",
       'Unmarshal("01"), ("1."), ("-.5"), ("1.e1") succeed',
@@ -106,6 +107,9 @@ known("KF-C05-05", "C05", M, STREAM, "ok-vs-err", r"relax=stream:nul-skipped",
       "internal/decoder/stream.go: every scanner treats NUL as 'refill and retry'",
       "stream-mode acceptances that need an embedded NUL",
       "same sentinel design as KF-C05-03")
+known("KF-C05-05b", "C05", M, STREAM, "ok-vs-err", r"relax=stream:nul-skipped-unmodelled",
+      'a Decoder fed 2 bytes at a time accepts "\\x00}{": NUL bytes met while the reader can still deliver data are stepped over, here in positions the recogniser\'s nul-skipped relaxation does not model',
+      "see KF-C05-05", "other stream-only acceptances of texts with an embedded NUL", "same sentinel design as KF-C05-03")
 known("KF-C05-08", "C05", M, STREAM, "ok-vs-err", r"relax=stream:hex-unchecked",
       'Valid("\\"\\\\uZZZZ\\"") is true',
       "internal/decoder/string.go stream \\u handling does not validate the four hex digits",
